@@ -419,6 +419,9 @@ func branchOf(e *env, node, bi int, b *BranchSpec, keyOf func(int) string) *comp
 	}, ends)
 }
 
+// staticable: the node kinds whose input is a map (a static value is one more key of it)
+func staticable(kind string) bool { return kind != "pass" && kind != "anyx" }
+
 func buildWorkflow(e *env) (compose.Runnable[M, M], error) {
 	c := e.c
 	wf := compose.NewWorkflow[M, M](newGraphOpts(c.State)...)
@@ -458,6 +461,13 @@ func buildWorkflow(e *env) (compose.Runnable[M, M], error) {
 		wire(nodes[i], c.Nodes[i].Inputs)
 	}
 	wire(wf.End(), c.EndInputs)
+	for i := range c.Nodes {
+		// a static value: the framework merges a one-chunk stream of its own into the node's mapped input (or, for
+		// a node with dependencies only, hands it the static values alone and closes the empty input)
+		if c.Nodes[i].Static && staticable(c.Nodes[i].Kind) {
+			nodes[i].SetStaticValue(compose.FieldPath{"static"}, "s")
+		}
+	}
 	for bi := range c.StartBranches {
 		wf.AddBranch(compose.START, branchOf(e, START, bi, &c.StartBranches[bi], graphKey))
 	}
